@@ -49,7 +49,9 @@ class Flags(object):
     """dual: only operators accepting both kinds of source, with the C01
     preconditions.  in_tee: inside a tee_map branch.  depth: nesting budget."""
 
-    def __init__(self, dual=False, in_tee=False, no_mut_stream=False, allow=None, deny=(), plain_only_ok=False, error_ops_ok=False):
+    def __init__(self, dual=False, in_tee=False, no_mut_stream=False, allow=None, deny=(), plain_only_ok=False, error_ops_ok=False,
+                 deny_accs=()):
+        self.deny_accs = set(deny_accs)
         self.plain_only_ok = plain_only_ok
         self.error_ops_ok = error_ops_ok
         self.dual = dual
@@ -59,7 +61,7 @@ class Flags(object):
         self.deny = set(deny)
 
     def sub(self, **kw):
-        f = Flags(self.dual, self.in_tee, self.no_mut_stream, self.allow, self.deny, self.plain_only_ok, self.error_ops_ok)
+        f = Flags(self.dual, self.in_tee, self.no_mut_stream, self.allow, self.deny, self.plain_only_ok, self.error_ops_ok, self.deny_accs)
         for k, v in kw.items():
             setattr(f, k, v)
         return f
@@ -139,7 +141,7 @@ def check_node(node, st, fl):
     if op == 'scan':
         a = F.ACCS.get(node['fn'])
         s = F.SEEDS.get(node['seed'])
-        if a is None or s is None or not _match(t, a[1]) or s[1] != a[2]:
+        if a is None or s is None or not _match(t, a[1]) or s[1] != a[2] or node['fn'] in fl.deny_accs:
             raise Invalid('scan type')
         term = node.get('term')
         if term is not None and (term not in F.TERMS or F.TERMS[term][1] != a[2]):
@@ -287,6 +289,8 @@ def check_node(node, st, fl):
             for k in ('active', 'inactive'):
                 if node.get(k) is not None and node[k] <= 0:
                     raise Invalid('time-outs must be positive')
+            if node.get('dt') not in (None, False, True, 'seconds', 'hours', 'days'):
+                raise Invalid('time unit')
             inner_empty = bool(node.get('closing'))
         else:
             key = node['key']
@@ -329,6 +333,10 @@ DEFAULT_WEIGHTS = {
 
 
 _BY_TYPE = {}
+
+# scale mode (set per case by the checks' sizes()): parameters beyond CPython's small-int cache (257+) and
+# counters that only go wrong after hundreds of items
+SCALE = [False]
 
 
 def names_for(table, t, col=1, also_any=False):
@@ -416,7 +424,9 @@ class Gen(object):
         if op in ('first', 'last', 'identity', 'do_action', 'assert_', 'assert_1', 'to_list', 'flat_map'):
             return [{'op': op}]
         if op == 'take':
-            return [{'op': 'take', 'n': r.choice([0, 1, 1, 2, 2, 3, 5, 50])}]
+            if SCALE[0]:
+                return [{'op': 'take', 'n': r.choice([256, 257, 300])}]
+            return [{'op': 'take', 'n': r.choice([0, 1, 1, 2, 2, 3, 5, 50, 130, 257])}]
         if op == 'to_array':
             return [{'op': 'to_array', 'tc': 'q' if t == 'int' else 'd'}]
         if op == 'distinct_until_changed' or op == 'distinct':
@@ -432,9 +442,11 @@ class Gen(object):
         if op == 'fill_none':
             return [{'op': 'fill_none', 'value': r.choice([0, -1, 42])}]
         if op == 'batch':
-            return [{'op': 'batch', 'n': r.choice([1, 1, 2, 2, 3, 4, 7])}]
+            if SCALE[0]:
+                return [{'op': 'batch', 'n': r.choice([100, 256, 257, 300])}]
+            return [{'op': 'batch', 'n': r.choice([1, 1, 2, 2, 3, 4, 7, 16, 64, 100])}]
         if op == 'progress':
-            return [{'op': 'progress', 'threshold': r.choice([1, 2, 3, 100]), 'mt': r.random() < 0.5}]
+            return [{'op': 'progress', 'threshold': r.choice([1, 2, 3, 100, 256]), 'mt': r.random() < 0.5}]
         if op == 'dist_update':
             return [{'op': 'dist_update', 'reduce': r.random() < 0.5, 'bins': r.choice([2, 4, 8])}]
         if op == 'sort':
@@ -447,9 +459,11 @@ class Gen(object):
         if op == 'to_deque':
             return [{'op': 'to_deque', 'extend': t == 'list' and r.random() < 0.5}]
         if op == 'lag':
-            return [{'op': 'lag', 'n': r.choice([0, 1, 1, 2, 3, 9])}]
+            if SCALE[0]:
+                return [{'op': 'lag', 'n': r.choice([128, 257, 300])}]
+            return [{'op': 'lag', 'n': r.choice([0, 1, 1, 2, 3, 9, 33, 128])}]
         if op in ('pad_start', 'pad_end'):
-            return [{'op': op, 'size': r.choice([0, 1, 2, 3]), 'value': r.choice([None, None, 0, 77])}]
+            return [{'op': op, 'size': r.choice([0, 1, 2, 3, 3, 17] if not SCALE[0] else [3, 257, 300]), 'value': r.choice([None, None, 0, 77])}]
         if op == 'start_with':
             return [{'op': 'start_with', 'padding': [r.randrange(100, 110) for _ in range(r.choice([0, 1, 2, 3]))]}]
         if op == 'tee_map':
@@ -464,8 +478,14 @@ class Gen(object):
             node = {'op': op}
             if op == 'roll':
                 hi = 6 if self.small else 12
-                node['window'] = r.randint(1, hi)
-                node['stride'] = r.randint(1, hi)
+                if SCALE[0]:
+                    node['window'] = r.choice([256, 257, 300, 300])
+                    node['stride'] = r.choice([64, 100, 257, 300, 301, node['window']])
+                else:
+                    if r.random() < 0.06:
+                        hi = r.choice([17, 33, 64, 130])
+                    node['window'] = r.randint(1, hi)
+                    node['stride'] = r.choice([r.randint(1, hi), r.randint(1, min(hi, 6)), node['window']])
                 ist = St(t, False, False)
             elif op == 'time_split':
                 node['active'] = r.choice([None, 3, 5, 8])
@@ -730,15 +750,25 @@ _EPOCH = None
 
 
 def time_mapper(node):
-    return F.time_of_dt if node.get('dt') else F.time_of
+    """dt: falsy = integer ticks; True/'seconds', 'hours', 'days' = datetime timestamps one tick apart in that
+    unit (gaps of several hours or days: a timedelta's .seconds is not its total_seconds())."""
+    dt = node.get('dt')
+    if not dt:
+        return F.time_of
+    return {'hours': F.time_of_hours, 'days': F.time_of_days}.get(dt, F.time_of_dt)
 
 
 def timeout(node, k):
     v = node.get(k)
     if v is None:
         return None
-    if node.get('dt'):
+    dt = node.get('dt')
+    if dt:
         from datetime import timedelta
+        if dt == 'hours':
+            return timedelta(hours=v)
+        if dt == 'days':
+            return timedelta(days=v, microseconds=v)
         return timedelta(seconds=v)
     return v
 
